@@ -32,7 +32,7 @@ Act_C08 == [][IsStep => C08_Step(w, ev', w')]_vars
 Act_C09 == [][IsStep => C09_Step(w, ev', w')]_vars
 Act_C10 == [][IsStep => C10_Step(w, ev', w')]_vars
 Act_C11 == [][IsStep => C11_Step(w, ev', w', obs')]_vars
-Act_C13 == [][IsStep => C13_Step(w, ev', w', obs, obs')]_vars
+Act_C13 == [][IsStep => (C13_Step(w, ev', w', obs, obs') /\ C02_DelegateRegistered(w, ev'))]_vars   \* incl.: later bonds go to registered validators only
 Act_C14 == [][IsStep => C14_Claim(w, ev', w')]_vars
 Act_C15 == [][IsStep => C15_Step(w, ev', w')]_vars
 Act_C17 == [][IsStep => C17_Step(w, ev', w')]_vars
